@@ -200,6 +200,12 @@ func (x *Exec) guardCheck(st *State, key string, addr *Term, write bool) {
 	label := fmt.Sprintf("%s %s@%s", mode, shortKey(key), x.siteLabelOrFunc())
 	x.oblige(x.curFrame, st, "guarded", label, goal, x.curNode)
 	x.Obls[len(x.Obls)-1].Tag = "C15"
+	for _, f := range strings.Fields(g.text) {
+		if strings.HasPrefix(f, "also:") {
+			// the discipline of this field also carries another property
+			x.Obls[len(x.Obls)-1].Tag = "C15," + strings.TrimPrefix(f, "also:")
+		}
+	}
 	if g.guard == "mu+shard" && x.indexedAccess {
 		// also the atomicity of lookup-and-use per key that C01 rests on
 		x.Obls[len(x.Obls)-1].Tag = "C15,C01"
